@@ -208,9 +208,10 @@ struct Mix {
     ref_like: bool,
     big_reals: bool,
     nonfinite: bool,
+    far_refs: bool,
 }
 
-const SAFE: Mix = Mix { odd_names: 0, cr_strings: false, ref_like: false, big_reals: false, nonfinite: false };
+const SAFE: Mix = Mix { odd_names: 0, cr_strings: false, ref_like: false, big_reals: false, nonfinite: false, far_refs: false };
 
 fn gen_name(rng: &mut Rng, mix: Mix) -> String {
     if mix.odd_names > 0 && rng.chance(1, mix.odd_names) {
@@ -266,7 +267,7 @@ fn gen_tree(rng: &mut Rng, depth: u32, mix: Mix) -> T {
             }
             7 | 8 => T::Name(gen_name(rng, mix)),
             _ => T::Ref(
-                *rng.pick(&[0u32, 1, 7, 9999999, 10000000, u32::MAX]),
+                if mix.far_refs { *rng.pick(&[9999999u32, 10000000, u32::MAX]) } else { *rng.pick(&[0u32, 1, 7, 1000000, 9999999]) },
                 *rng.pick(&[0u16, 1, 65535]),
             ),
         }
@@ -440,7 +441,8 @@ fn gen(rng: &mut Rng, tier: Tier) -> Vec<Case> {
         push_obj(&mut cases, "d", &t, "safe");
     }
     // 2. trees with one defect class switched on each
-    let classes: [(&str, Mix); 5] = [
+    let classes: [(&str, Mix); 6] = [
+        ("far-refs", Mix { far_refs: true, ..SAFE }),
         ("odd-names", Mix { odd_names: 2, ..SAFE }),
         ("cr-strings", Mix { cr_strings: true, ..SAFE }),
         ("ref-like", Mix { ref_like: true, ..SAFE }),
@@ -450,12 +452,29 @@ fn gen(rng: &mut Rng, tier: Tier) -> Vec<Case> {
     for (kind, mix) in classes {
         for _ in 0..40 * scale {
             let d = 1 + rng.below(3) as u32;
-            let t = gen_tree(rng, d, mix);
+            let mut t = gen_tree(rng, d, mix);
+            // make sure the class's feature is present in most cases
+            if rng.chance(3, 4) {
+                let feature = match kind {
+                    "cr-strings" => Some(T::Str(format!("{}\r{}", plain_ident(rng, 3), if rng.chance(1, 2) { "\n" } else { "x" }))),
+                    "big-reals" => Some(T::Real(*rng.pick(&[9.3e18, 1e19, -1e19, 1e22, 1e300, f64::MAX, f64::MIN, 9223372036854775807.0]))),
+                    "nonfinite" => Some(T::Real(*rng.pick(NONFINITE))),
+                    "odd-names" => Some(T::Name(text(rng, 4, 1))),
+                    _ => None,
+                };
+                if let Some(f) = feature {
+                    t = if rng.chance(1, 2) {
+                        T::Arr(vec![t, f])
+                    } else {
+                        T::Dict(vec![("A".into(), f), ("B".into(), t)])
+                    };
+                }
+            }
             push_obj(&mut cases, "d", &t, kind);
         }
     }
     // 3. everything at once
-    let all = Mix { odd_names: 4, cr_strings: true, ref_like: true, big_reals: true, nonfinite: false };
+    let all = Mix { odd_names: 4, cr_strings: true, ref_like: true, big_reals: true, nonfinite: false, far_refs: true };
     for _ in 0..60 * scale {
         let t = gen_tree(rng, 3, all);
         push_obj(&mut cases, "d", &t, "mixed");
